@@ -41,9 +41,11 @@ func allChecks() []Check {
 			ID: "C01", Title: "Parsing is total: a tree or an error, never a crash, hang or half-built tree",
 			Runs: []HarnessRun{
 				{Harness: "VP_C01_bytes", Quick: map[string]int{"L": 3}, Thorough: map[string]int{"L": 4}, MustReach: []string{"C01/bytes/accepted", "C01/bytes/rejected"}, PanicLabel: "C01/bytes/no-panic"},
+				{Harness: "VP_C01_lists", Quick: map[string]int{"K": 3}, Thorough: map[string]int{"K": 4}, MustReach: []string{"C01/lists/accepted", "C01/lists/rejected"}, PanicLabel: "C01/lists/no-panic"},
 				{Harness: "VP_C01_tokens", Quick: map[string]int{"K": 2}, Thorough: map[string]int{"K": 3}, MustReach: []string{"C01/tokens/accepted", "C01/tokens/rejected"}, PanicLabel: "C01/tokens/no-panic"},
 			},
 			Bounds: map[string]string{"bytes": "ParseSourceCode on every text of exactly L symbolic bytes (valid UTF-8 or not); quick L=3, thorough L=4; every path must end within the step budget (unwinding check)",
+				"lists":  "a( t1..tK ) and [ t1..tK ] over the 10 tokens the list loops distinguish, symbolic line-break flags, full error recovery (quick K=3, thorough K=4); bytes: every text is parsed twice and both calls must agree",
 				"tokens": "the real parser with full error recovery over every sequence of exactly K tokens (symbolic kinds over the whole scanner image, symbolic line-break flags) through a stub scanner; quick K=2, thorough K=3"},
 			Outside:     []string{"inputs longer than the bounds (64 KiB texts, deep nesting, long operator chains)", "running time proportional to input length"},
 			Assumptions: commonAssumptions,
@@ -90,6 +92,7 @@ func allChecks() []Check {
 				{Harness: "VP_C04_entry_int", Quick: map[string]int{"LO": 0, "HI": 63}, MustReach: []string{"C04/entry-int/done"}, PanicLabel: "C04/entry-int/no-panic"},
 				{Harness: "VP_C04_entry_int", Quick: map[string]int{"LO": -1, "HI": 0}, MustReach: []string{"C04/entry-int/done"}, PanicLabel: "C04/entry-int/no-panic"},
 				{Harness: "VP_C04_entry_float", Quick: map[string]int{}, MustReach: []string{"C04/entry-float/done"}, PanicLabel: "C04/entry-float/no-panic", SampleEvery: 1},
+				{Harness: "VP_C04_handback", Quick: map[string]int{}, MustReach: []string{"C04/handback/done"}, PanicLabel: "C04/handback/no-panic", SampleEvery: 1},
 				{Harness: "VP_C04_wide", Quick: map[string]int{}, MustReach: []string{"C04/wide/done"}, PanicLabel: "C04/wide/no-panic", SampleEvery: 3},
 				{Harness: "VP_C04_arith", Quick: map[string]int{"OP": 0, "CB": 1000000, "E": 1, "DB": 0}, Thorough: map[string]int{"OP": 0, "CB": 1000000000, "E": 2, "DB": 0}, MustReach: []string{"C04/arith/done"}, PanicLabel: "C04/arith/no-panic"},
 				{Harness: "VP_C04_arith", Quick: map[string]int{"OP": 1, "CB": 1000000, "E": 1, "DB": 0}, Thorough: map[string]int{"OP": 1, "CB": 1000000000, "E": 2, "DB": 0}, MustReach: []string{"C04/arith/done"}, PanicLabel: "C04/arith/no-panic"},
@@ -98,7 +101,8 @@ func allChecks() []Check {
 			},
 			Bounds: map[string]string{"arith": "[a OP b] evaluated by the real runner for a, b = (-1)^s * c * 10^e with symbolic sign and coefficient c < CB and every exponent pair in [-E,E]^2 (real decimal add/mul/quorem code executed symbolically) vs exact integer arithmetic at the common exponent; result context asserted to be precision 34 / half-even; OP 0,1 (+,-): CB=10^6 quick / 10^9 thorough; OP 2 (*): CB=10^5 / 10^6; OP 3 (%): the divisor's coefficient is case-split over 1..DB-1 (symbolic-by-symbolic division does not finish), dividend c < 1000",
 				"entry-float": "CONCRETE POOL (not symbolic): 18 float64 data values incl. 0.1, 0.3, 2^53+1, 1e19, 2^63, 1e22, 5e-324, MaxFloat64 with hand-written expected decimal (coefficient, exponent); strconv's shortest formatting of a symbolic float is not encodable",
-				"wide":        "CONCRETE POOL (not symbolic): 54 cases of + - * % on operands of up to 34 digits incl. results that must be rounded half-even to 34 digits; expected values computed independently (Python decimal prec 34 ROUND_HALF_EVEN, exact big integers for %)",
+				"wide":        "CONCRETE POOL (not symbolic): 354 cases of + - * % on operands of up to 34 digits (incl. a systematic family of results just below/above a power of ten with exponent gaps 32..36) incl. results that must be rounded half-even to 34 digits; expected values computed independently (Python decimal prec 34 ROUND_HALF_EVEN, exact big integers for %)",
+				"handback":    "CONCRETE POOL (not symbolic): 18 formulas whose result is an integer of at most 15 digits scaled by a power of ten within 10^-22..10^22 (incl. 19-digit values beyond 2^63): the float64 handed back by Resolve must be the nearest one",
 				"entry-int":   "a Go int64 / int / int32 data value n (one symbolic 64-bit value, 1 <= |n| < 2^63, plus |n| < 1000 incl. 0) read back through the evaluator equals n exactly"},
 			Outside:     []string{"n = MinInt64", "'/' (the library scales the dividend by 10^34 into math/big: division on symbolic words does not finish in any back end)", "results beyond 34 digits (the half-even rounding regime needs coefficients beyond 64 bits)", "float64 data values and the final float64 hand-back (strconv formatting/parsing of symbolic floats is not encodable)", "chains of operations"},
 			Assumptions: commonAssumptions,
@@ -106,12 +110,14 @@ func allChecks() []Check {
 		{
 			ID: "C05", Title: "Ordering and equality are lawful and representation-independent",
 			Runs: []HarnessRun{
-				{Harness: "VP_C05_numbers", Quick: map[string]int{"CB": 100, "E": 1, "WIDE": 20}, Thorough: map[string]int{"CB": 1000, "E": 1, "WIDE": 36}, MustReach: []string{"C05/numbers/done"}, PanicLabel: "C05/numbers/no-panic"},
-				{Harness: "VP_C05_numbers", Quick: map[string]int{"CB": 1000000, "E": 2, "WIDE": 0}, Thorough: map[string]int{"CB": 1000000000, "E": 4, "WIDE": 0}, MustReach: []string{"C05/numbers/done"}, PanicLabel: "C05/numbers/no-panic"},
+				{Harness: "VP_C05_numbers", Quick: map[string]int{"CB": 10, "E": 0, "WIDE": 0, "NEAR": 1}, Thorough: map[string]int{"CB": 10, "E": 0, "WIDE": 0, "NEAR": 2}, MustReach: []string{"C05/numbers/done"}, PanicLabel: "C05/numbers/no-panic"},
+				{Harness: "VP_C05_numbers", Quick: map[string]int{"CB": 100, "E": 1, "WIDE": 20, "NEAR": 0}, Thorough: map[string]int{"CB": 1000, "E": 1, "WIDE": 36, "NEAR": 0}, MustReach: []string{"C05/numbers/done"}, PanicLabel: "C05/numbers/no-panic"},
+				{Harness: "VP_C05_numbers", Quick: map[string]int{"CB": 1000000, "E": 2, "WIDE": 0, "NEAR": 0}, Thorough: map[string]int{"CB": 1000000000, "E": 4, "WIDE": 0, "NEAR": 0}, MustReach: []string{"C05/numbers/done"}, PanicLabel: "C05/numbers/no-panic"},
 				{Harness: "VP_C05_strings", Quick: map[string]int{"S": 3}, Thorough: map[string]int{"S": 5}, MustReach: []string{"C05/strings/done"}, PanicLabel: "C05/strings/no-panic"},
 				{Harness: "VP_C05_kinds", Quick: map[string]int{}, MustReach: []string{"C05/kinds/done"}, PanicLabel: "C05/kinds/no-panic"},
 			},
 			Bounds: map[string]string{"numbers": "a, b = (-1)^s * c * 10^e with symbolic sign and coefficient c < CB, every exponent pair in [-E,E]^2 (so every spelling 1, 1.0, 10e-1 of a value is a (c,e) pair), incl. -0; all eight operators evaluated by the real runner (real decimal.Cmp executed symbolically) vs exact integer order at the common exponent; quick CB=10^6,E=2; thorough CB=10^9,E=4",
+				"numbers-near": "16-digit coefficients 8000000000000000+d (thorough: 9007199254740990+d), d < 8 symbolic, common exponent in {0,-7,-14}: distinct decimals that collapse in binary floating point",
 				"numbers-wide": "the same with exponents from the sparse grid {0, 1, W/2, W-1, W} (one side also negated): values beyond 2^63 and up to 10^W apart; quick c<100, W=20; thorough c<1000, W=36",
 				"strings":      "two strings of 0..S symbolic bytes vs an explicit byte-wise loop; quick S=3, thorough S=5",
 				"kinds":        "operands over {null, typed nil pointer, bool, number (c<1000, e in -1..1), string (<=1 byte)}^2 for == != === !=="},
@@ -165,6 +171,7 @@ func allChecks() []Check {
 		{
 			ID: "C10", Title: "Referenced-field analysis is exact and sufficient",
 			Runs: []HarnessRun{
+				{Harness: "VP_C10_text", Quick: map[string]int{}, MustReach: []string{"C10/text/done"}, PanicLabel: "C10/text/no-panic", SampleEvery: 1},
 				{Harness: "VP_C10_fields", Quick: map[string]int{"N": 2, "D": 2}, Thorough: map[string]int{"N": 3, "D": 2}, MustReach: []string{"C10/fields/done", "C10/fields/refused"}, PanicLabel: "C10/fields/no-panic"},
 			},
 			Bounds:      map[string]string{"fields": "formulas chosen symbolically over identifiers (one name with a symbolic first byte in {'$','q'}), dotted paths of depth 2-3, literals, this, +, $l = e, ?:, arrays, parentheses, typeof, prefix -, calls, spread calls, callee paths, member access on a parenthesised expression; expected set from an independent walker; sufficiency by evaluating against the full and the restricted data map"},
@@ -199,7 +206,8 @@ func allChecks() []Check {
 				{Harness: "VP_C18_rounding", Quick: map[string]int{"CB": 1000, "E": 2}, Thorough: map[string]int{"CB": 1000000, "E": 4}, MustReach: []string{"C18/rounding/done"}, PanicLabel: "C18/rounding/no-panic"},
 				{Harness: "VP_C18_minmax", Quick: map[string]int{"N": 3, "CB": 10}, Thorough: map[string]int{"N": 4, "CB": 10}, MustReach: []string{"C18/minmax/done"}, PanicLabel: "C18/minmax/no-panic"},
 				{Harness: "VP_C18_conv", Quick: map[string]int{"CB": 1000, "E": 2}, Thorough: map[string]int{"CB": 100000, "E": 3}, MustReach: []string{"C18/conv/done"}, PanicLabel: "C18/conv/no-panic"},
-				{Harness: "VP_C18_bits", Quick: map[string]int{"B": 20}, Thorough: map[string]int{"B": 31}, MustReach: []string{"C18/bits/done"}, PanicLabel: "C18/bits/no-panic"},
+				{Harness: "VP_C18_bits", Quick: map[string]int{"B": 6, "K": 2}, Thorough: map[string]int{"B": 10, "K": 2}, MustReach: []string{"C18/bits/done"}, PanicLabel: "C18/bits/no-panic"},
+				{Harness: "VP_C18_bits", Quick: map[string]int{"B": 20, "K": 0}, Thorough: map[string]int{"B": 31, "K": 0}, MustReach: []string{"C18/bits/done"}, PanicLabel: "C18/bits/no-panic"},
 				{Harness: "VP_C18_bigints", Quick: map[string]int{"LO": 0, "HI": 62}, MustReach: []string{"C18/bigints/done"}, PanicLabel: "C18/bigints/no-panic"},
 			},
 			Bounds:      map[string]string{"rounding": "abs ceil floor round roundBank on x = (-1)^s * c * 10^e, c < CB symbolic, e in -E..1 (library Quantize/RoundToInt executed symbolically)", "minmax": "lists of 1..N symbolic numbers", "conv": "toInt, toFloat (numbers and texts of 1..4 bytes over {0-9 . e - space x}), toString round trip (c < 1000), finite", "bits": "& | ^ ~ on integers |v| < 2^B vs two's complement", "bigints": "toInt(n) and n & n for one symbolic integer 1 <= |n| < 2^62"},
@@ -230,6 +238,7 @@ func allChecks() []Check {
 			ID: "C11", Title: "Host functions are called exactly as declared, or not at all",
 			Runs: []HarnessRun{
 				{Harness: "VP_C11_hostcalls", Quick: map[string]int{"A": 2}, Thorough: map[string]int{"A": 3}, MustReach: []string{"C11/hostcalls/value", "C11/hostcalls/error"}, PanicLabel: "C11/hostcalls/no-panic"},
+				{Harness: "VP_C11_history", Quick: map[string]int{}, MustReach: []string{"C11/history/done"}, PanicLabel: "C11/history/no-panic", SampleEvery: 1},
 				{Harness: "VP_C11_results", Quick: map[string]int{}, MustReach: []string{"C11/results/value", "C11/results/error"}, PanicLabel: "C11/results/no-panic"},
 			},
 			Bounds:      map[string]string{"hostcalls": "14 recording host functions (string, int, int8, float64, bool, interface{}, *decimal.Big, time.Time, []string, []int, map[string]int parameters, variadic tails, optional leading context) x argument lists of length 0..A over {null, symbolic bool, numbers from a pool incl. fractions and negatives, symbolic strings, string array, number array, map, time}, with and without spread; the oracle predicts the exact invocation log or an error", "results": "returned error (symbolic) aborts with an error naming the function; returned int/int32/int64/float32/float64 become numbers"},
@@ -239,6 +248,7 @@ func allChecks() []Check {
 		{
 			ID: "C12", Title: "Numeric literals denote exactly the decimal number written",
 			Runs: []HarnessRun{
+				{Harness: "VP_C12_long", Quick: map[string]int{}, MustReach: []string{"C12/long/done"}, PanicLabel: "C12/long/no-panic", SampleEvery: 1},
 				{Harness: "VP_C12_literals", Quick: map[string]int{"L": 6, "ALPHA": 1}, Thorough: map[string]int{"L": 7, "ALPHA": 1}, MustReach: []string{"C12/literals/wellformed", "C12/literals/malformed"}, PanicLabel: "C12/literals/no-panic"},
 				{Harness: "VP_C12_literals", Quick: map[string]int{"L": 4, "ALPHA": 0}, Thorough: map[string]int{"L": 6, "ALPHA": 0}, MustReach: []string{"C12/literals/wellformed", "C12/literals/malformed"}, PanicLabel: "C12/literals/no-panic"},
 			},
@@ -262,6 +272,7 @@ func allChecks() []Check {
 				{Harness: "VP_C14_tables", Quick: map[string]int{}, MustReach: []string{"C14/tables/done"}},
 				{Harness: "VP_C14_classes", Quick: map[string]int{}, MustReach: []string{"C14/classes/done"}},
 				{Harness: "VP_C14_tokens", Quick: map[string]int{"L": 2, "OPS": 0}, Thorough: map[string]int{"L": 3, "OPS": 0}, MustReach: []string{"C14/tokens/complete", "C14/tokens/cut"}, PanicLabel: "C14/tokens/no-panic"},
+				{Harness: "VP_C14_tokens", Quick: map[string]int{"L": 4, "OPS": 2}, Thorough: map[string]int{"L": 5, "OPS": 2}, MustReach: []string{"C14/tokens/complete"}, PanicLabel: "C14/tokens/no-panic"},
 				{Harness: "VP_C14_tokens", Quick: map[string]int{"L": 4, "OPS": 1}, Thorough: map[string]int{"L": 5, "OPS": 1}, MustReach: []string{"C14/tokens/complete"}, PanicLabel: "C14/tokens/no-panic"},
 				{Harness: "VP_C14_scanstep", Quick: map[string]int{"L": 3}, Thorough: map[string]int{"L": 4}, MustReach: []string{"C14/scanstep/done"}, PanicLabel: "C14/scanstep/no-panic"},
 			},
